@@ -227,6 +227,10 @@ def run(ctx):
                 return None
             if C.branch_when(b, atom) == lab:
                 guarded = True
+            # the same, read the other way round: when the request does not name the field, this test goes the other way
+            # (`"f" in args and isinstance(args["f"], str)` is false then, whatever the second operand says)
+            if C.branch_when(b, lambda x, atom=atom: (not atom(x)) if atom(x) is not None else None) not in (None, lab):
+                guarded = True
             # `v is not None` with v = <request>.get(field) (possibly through a helper that maps None to None): a field that
             # is not named reads as None
             def atom_nn(x, field=field, b=b):
@@ -245,6 +249,10 @@ def run(ctx):
             if og is not None:
                 ctx.undecided("C07.2", edit, "store to %r runs under `%s`, whose operand comes out of a conversion this rule cannot fold for an unnamed field (None): whether an edit that does not name %r "
                               "reaches the store is not decided" % (ck, og, field), ins.node)
+                continue
+            rec = _request_record_guard(ctx, edit, node, request_params)
+            if rec is not None:
+                ctx.undecided("C07.2", edit, "store to %r runs under `%s`, a test on an object that a package function builds from the request; what that object holds for a field the request does not name was not followed" % (ck, rec), ins.node)
                 continue
             ctx.violated("C07.2", edit, "store to %r is not control-dependent on the request naming field %r: an edit that does not name it still changes it" % (ck, field), ins.node)
             continue
@@ -287,6 +295,8 @@ def run(ctx):
                 return None
             if C.branch_when(b, atom_kv) == lab:
                 named = True
+            if C.branch_when(b, lambda x, atom_kv=atom_kv: (not atom_kv(x)) if atom_kv(x) is not None else None) not in (None, lab):
+                named = True
 
             def atom_kv_nn(x, kv=kv, b=b):
                 if isinstance(x, ast.Compare) and len(x.ops) == 1 and isinstance(x.ops[0], (ast.IsNot, ast.Is)) and isinstance(x.comparators[0], ast.Constant) \
@@ -318,6 +328,10 @@ def run(ctx):
                         gen = tg_[0]
                     break
                 lp = ctx.prog.parent.get(lp)
+            rec = _request_record_guard(ctx, edit, node, request_params)
+            if gen is None and rec is not None:
+                ctx.undecided("C07.2", edit, "store under the key variable %r runs under `%s`, a test on an object that a package function builds from the request; what that object holds for a field the request does not name was not followed" % (kv, rec), ins.node)
+                continue
             if gen is not None:
                 ctx.undecided("C07.2", edit, "store under the key variable %r, handed out by the generator %s: whether it hands out only the fields the request names is decided there and was not followed" % (kv, gen.qualname), ins.node)
                 continue
@@ -566,6 +580,37 @@ def _none_when_unnamed(ctx, fn, name_node, at, field, request_params, keyvar=Non
                 continue
         return False
     return True
+
+
+def _request_record_guard(ctx, edit, node, request_params):
+    """A controlling test mentions a local (or a field of a local) that is bound to the result of a package function which was
+    handed the request: the text of that test, else None."""
+    g = C.cfg_of(edit)
+    for b, lab in g.control_deps(node):
+        t = C.test_expr(b)
+        if t is None:
+            continue
+        for x in ast.walk(t):
+            base = x
+            while isinstance(base, (ast.Attribute, ast.Subscript)):
+                base = base.value
+            if not isinstance(base, ast.Name) or base.id in request_params or base.id == edit.self_name:
+                continue
+            seen, work = set(), [base.id]
+            while work:
+                nm = work.pop()
+                if nm in seen:
+                    continue
+                seen.add(nm)
+                for w_, p_ in ctx.res.bindings(edit).get(nm, []):
+                    v = p_[0] if isinstance(p_, tuple) else p_
+                    if w_ in ("value", "unpack", "iter", "iterunpack") and isinstance(v, ast.AST):
+                        if isinstance(v, ast.Call) and C.targets_of(ctx, edit, v) and any(isinstance(a, ast.Name) and a.id in request_params for a in ast.walk(v)):
+                            return norm(t)[:70]
+                        for y in ast.walk(v):
+                            if isinstance(y, ast.Name) and y.id not in seen:
+                                work.append(y.id)
+    return None
 
 
 def _opaque_none_guard(ctx, fn, node, request_params, field=None, found=None):
